@@ -15,14 +15,17 @@ mod verif_kani_text {
             from: Point(BOARD_END - 1 - fr as usize, BOARD_START + fc as usize), to: Point(BOARD_END - 1 - tr as usize, BOARD_START + tc as usize), promo }
     }
     fn text(t: &T) -> &str { unsafe { std::str::from_utf8_unchecked(&t.bytes[..t.len]) } }
+    // the R3 / R4 helpers, character for character as in the Verus file (contracts/ucimove.py checks the texts are equal)
+    fn __verif_char_at(s: &str, n: usize) -> char { s.chars().nth(n).unwrap() }
+    fn __verif_square_at(s: &str, i: usize) -> Point { (s[i..i + 2]).parse().unwrap() }
 
     // text_square_at(s,0) == tm_from(s), text_square_at(s,2) == tm_to(s), both on the board  (the R4 helper expressions)
     #[kani::proof]
     #[kani::unwind(7)]
     fn c04_text_squares() {
         let t = any_move(); let s = text(&t);
-        let p0: Point = (s[0..2]).parse().unwrap();
-        let p1: Point = (s[2..4]).parse().unwrap();
+        let p0: Point = __verif_square_at(s, 0);
+        let p1: Point = __verif_square_at(s, 2);
         assert!(p0 == t.from && p1 == t.to);
         assert!(p0.0 >= 2 && p0.0 < 10 && p0.1 >= 2 && p0.1 < 10 && p1.0 >= 2 && p1.0 < 10 && p1.1 >= 2 && p1.1 < 10);
     }
@@ -32,7 +35,7 @@ mod verif_kani_text {
     fn c04_text_len_and_letter() {
         let t = any_move(); let s = text(&t);
         assert!((s.len() == 5) == (t.promo != 0));
-        if t.promo != 0 { assert!(s.chars().nth(4).unwrap() == LETTERS[t.promo as usize] as char); }
+        if t.promo != 0 { assert!(__verif_char_at(s, 4) == LETTERS[t.promo as usize] as char); }
     }
     // contains("a8") <=> from == a8 || to == a8, and likewise for the other three corners (one harness per corner:
     // str::contains is the expensive operation for CBMC)
